@@ -41,6 +41,12 @@ def _spurious(e):
     return e
 
 
+def _post(work, V, cases, obs):
+    from .. import mechbind
+    info = mechbind.choice_match(work, V)
+    return {'mech_model_checks': info, 'states': sum(m['distinct_states'] for m in info), 'transitions': sum(m['distinct_states'] for m in info)}
+
+
 def run(tier):
     single = lambda e: e['c']['kind'] == 'single' and len(e['obs'].get('ents', [])) == 1
     neutral = lambda e: e['c']['kind'] == 'neutral' and e['c']['text'].strip() and not e['obs'].get('ents')
@@ -54,7 +60,7 @@ def run(tier):
              'without skin-tone modifier, x prefixes x suffixes; every true/false pair in both orders x separators; every sequence of <=3 neutral '
              'tokens); each replayed into recognize_boolean(en-us); non-trivial = an entity was returned; verdict by TLC (Trace_Choice)',
         assumptions=common.STD_ASSUMPTIONS + [common.SHIM_ASSUMPTION],
-        exhaustive=True)
+        exhaustive=True, post=_post)
 
 
 def replay(path):
